@@ -13,12 +13,13 @@ import (
 type c14Family struct {
 	re    string
 	match []string
+	plain []string // extra non-matching names that are near misses of the expression
 }
 
 var c14Families = []c14Family{
-	{`^(ssn|pii)$`, []string{"ssn", "pii"}},
-	{`(?i)^SSN$`, []string{"ssn", "SSN", "Ssn"}},
-	{`ssn`, []string{"ssn", "xssnx", "my_ssn_2"}},
+	{`^(ssn|pii)$`, []string{"ssn", "pii"}, []string{"SSN", "Pii", "ssn2", "xpii"}},
+	{`(?i)^SSN$`, []string{"ssn", "SSN", "Ssn"}, []string{"ssn_", "assn"}},
+	{`ssn`, []string{"ssn", "xssnx", "my_ssn_2"}, []string{"SSN", "s.s.n", "sn"}},
 }
 
 var c14PlainNames = []string{"fld", "status", "createdAt", "owner", "tags", "qty", "score2", "addr"}
@@ -141,6 +142,126 @@ func c14Verdicts(sc *sweepCase, re *regexp.Regexp, fl Flags, out *JNode) []c14Ve
 	return vs
 }
 
+// c14Ladders: the distance between the matching name and the literal.  Every sequence of up to 4 (thorough 5)
+// wrappers out of {embedded document, $elemMatch, array of documents, $elemMatch + $and, $not + comparison}
+// is placed between the root of a query / update / inserted / $match document and a literal, and the one
+// matching name sits at the top, in the middle, directly above the literal, or nowhere.
+func c14Ladders(c *Ctx) {
+	maxDepth := 4
+	if c.Thorough() {
+		maxDepth = 5
+	}
+	fam := c14Families[0]
+	re := regexp.MustCompile(fam.re)
+	type wrap func(name LKey, inner *LNode) *LNode
+	wrappers := []struct {
+		n string
+		f wrap
+	}{
+		{"doc", func(k LKey, in *LNode) *LNode { return LO(k, in) }},
+		{"elemMatch", func(k LKey, in *LNode) *LNode { return LO("$elemMatch", LO(k, in)) }},
+		{"array-of-docs", func(k LKey, in *LNode) *LNode { return LA(LO(k, in), LO(Fn("zz"), LS("t").DC())) }},
+		{"elemMatch-and", func(k LKey, in *LNode) *LNode { return LO("$elemMatch", LO("$and", LA(LO(k, in)))) }},
+		{"or", func(k LKey, in *LNode) *LNode { return LO("$or", LA(LO(Fn("zz"), LS("t").DC()), LO(k, in))) }},
+	}
+	leafForms := []func(l *LNode) *LNode{
+		func(l *LNode) *LNode { return l },
+		func(l *LNode) *LNode { return LO("$in", LA(LS("other").DC(), l)) },
+		func(l *LNode) *LNode { return LO("$not", LO("$eq", l)) },
+		func(l *LNode) *LNode { return LA(LA(l)) },
+	}
+	var no int64
+	var seq []int
+	var rec func()
+	rec = func() {
+		if len(seq) > 0 {
+			for pos := -1; pos < len(seq)+1; pos++ { // which name (0 = top field … len(seq) = innermost) matches; -1 none
+				for lf, leafForm := range leafForms {
+					for slot := 0; slot < 4; slot++ {
+						no++
+						if !c.Mine(no) {
+							continue
+						}
+						leaf := LS("ladder secret 7731").With(Label{K: LabSecret, Class: ClsStr})
+						name := func(i int) LKey {
+							if i == pos {
+								return FN("ssn")
+							}
+							return FN(fmt.Sprintf("lvl%d", i))
+						}
+						v := leafForm(leaf)
+						for i := len(seq) - 1; i >= 0; i-- {
+							v = wrappers[seq[i]].f(name(i+1), v)
+						}
+						doc := LO(name(0), v)
+						var cmd *LNode
+						switch slot {
+						case 0:
+							cmd = LO("find", LS("c"), "filter", doc, "$db", LS("d"))
+						case 1:
+							cmd = LO("update", LS("c"), "updates", LA(LO("q", LO(), "u", LO("$set", doc))), "$db", LS("d"))
+						case 2:
+							cmd = LO("insert", LS("c"), "documents", LA(doc), "$db", LS("d"))
+						default:
+							cmd = LO("aggregate", LS("c"), "pipeline", LA(LO("$match", doc)), "cursor", LO(), "$db", LS("d"))
+						}
+						cmd.Zone = true
+						root := tEnvelope("COMMAND", "Slow query", LO("type", LS("command"), "ns", LS("d.c"), "command", cmd))
+						resolveLabels(root, false, false)
+						if root.HasDup() {
+							continue
+						}
+						sc := &sweepCase{C: &Case{Root: root, Cmd: cmd, Secrets: []*LNode{leaf}, SlotName: "ladder"}, Line: root.JSON(), Layer: "ladder"}
+						fl := Flags{Z: fam.re}
+						fl.Apply()
+						out, ok, pv := redactLine(sc.Line)
+						c.Eval(1)
+						c.Distinct(sc.Line)
+						c.Count("ladder_cases", 1)
+						if pv != nil || !ok {
+							continue
+						}
+						j, err := ParseJSON([]byte(out))
+						if err != nil {
+							continue
+						}
+						for _, vd := range c14Verdicts(sc, re, fl, j) {
+							problem := ""
+							if vd.expected == 1 && vd.observed == -1 {
+								problem = "not-redacted"
+							} else if vd.expected == -1 && vd.observed == 1 {
+								problem = "redacted-without-matching-name"
+							}
+							if problem == "" {
+								c.Outcome("as-specified")
+								continue
+							}
+							c.Outcome("mismatch")
+							var ws []string
+							for _, w := range seq {
+								ws = append(ws, wrappers[w].n)
+							}
+							line := sc.Line
+							c.Violate(fmt.Sprintf("selective-ladder:%s:name-%d-levels-above:leaf-form-%d", problem, len(seq)+1-pos, lf), fmt.Sprintf("%s: wrappers %v, matching name at level %d of %d, slot %d; input: %s | output: %s", problem, ws, pos, len(seq)+1, slot, trunc(line, 500), trunc(out, 500)),
+								int64(len(line)), map[string]any{"kind": "redact", "flags": fl.String(), "input": line, "output": out}, func() bool { fl.Apply(); o, _, _ := redactLine(line); return o == out })
+						}
+					}
+				}
+			}
+		}
+		if len(seq) == maxDepth {
+			return
+		}
+		for w := range wrappers {
+			seq = append(seq, w)
+			rec()
+			seq = seq[:len(seq)-1]
+		}
+	}
+	rec()
+	Flags{}.Apply()
+}
+
 // c14Loc: zone key + the nearest operator / name marker above the leaf + array depth
 func c14Loc(p string) string {
 	segs := strings.Split(p, ".")
@@ -170,7 +291,7 @@ func c14Run(c *Ctx) {
 				}
 			}
 		}
-		for _, n := range c14PlainNames {
+		for _, n := range append(append([]string{}, c14PlainNames...), fam.plain...) {
 			if re.MatchString(n) {
 				c.HarnessError("the regexp %s matches the plain name %q", fam.re, n)
 				return
@@ -186,7 +307,7 @@ func c14Run(c *Ctx) {
 	alt := map[string]string{ClsStr: "a.b@c.example.org", ClsEmail: "plain words, no at sign", ClsDate: "not a date at all", ClsOid: "zz", ClsBin: "!!"}
 	for fi, fam := range c14Families {
 		re := regexp.MustCompile(fam.re)
-		o0 := GenOpts{LeafSet: 1, MatchPool: fam.match, NamePatterns: true, FieldNames: c14PlainNames, OneGate: true}
+		o0 := GenOpts{LeafSet: 1, MatchPool: fam.match, NamePatterns: true, FieldNames: append(append([]string{}, fam.plain...), c14PlainNames...), OneGate: true}
 		layers := []sweepLayer{{"L0", o0, 0, nil}}
 		if c.Thorough() {
 			o2 := o0
@@ -304,6 +425,7 @@ func c14Run(c *Ctx) {
 		}, nil)
 	}
 	Flags{}.Apply()
+	c14Ladders(c)
 	// line locality in selective mode: the verdict for a line must not depend on the lines before it.  All
 	// sequences up to length 3 (quick 2) over lines that spell the same path as a dotted key, as nested
 	// documents, under operators and arrays, through the real CLI (fresh process per sequence, one line per
